@@ -38,6 +38,12 @@ def poly(fn, i, R=None, depth=0):
     if 'cv' in n and (k != 'DeclRefExpr' or n['decl'].get('dk') in ('enumconst', 'global')):
         return const(int(n['cv']))
     if k in CAST_KINDS and n.get('ck') in ('IntegralCast', 'NoOp', 'LValueToRValue'):
+        # a cast to fewer than 32 bits changes the value of a length/count (opaque atom);
+        # int/long/size_t conversions of sizes are looked through
+        if n.get('ck') == 'IntegralCast' and 0 < (n.get('tw') or 64) < 32:
+            inner = fn.nodes[fn.strip(n['ch'][0])]
+            if 'cv' not in inner and (inner.get('tw') or 64) > (n.get('tw') or 64):
+                return {('(%s)%s' % (n['t'], R.render(n['ch'][0])),): 1}
         return poly(fn, n['ch'][0], R, depth + 1)
     if k == 'BinaryOperator' and n['op'] in ('+', '-', '*'):
         a = poly(fn, n['ch'][0], R, depth + 1)
